@@ -141,7 +141,9 @@ pub unsafe extern "C" fn harness_laws(p: *const u8) -> u32 {
         if !(a.can_fit_into(m) && c.can_fit_into(m)) {
             r |= 16;
             // cause class of a max that one operand does not fit into (bits 8..11)
-            let cause = if matches!(m, Ty::Distinct { .. }) && (*m == a || *m == c) { 1 }
+            let weak_num = |t: &Ty| matches!(t, Ty::IInt(0) | Ty::UInt(0) | Ty::Float(0));
+            let other = if *m == a { &c } else { &a };
+            let cause = if matches!(m, Ty::Distinct { .. }) && (*m == a || *m == c) { if weak_num(other) { 6 } else { 1 } }
                 else if *m == Ty::Type { 2 }
                 else if matches!(m, Ty::Optional { .. }) { 3 }
                 else if matches!(m, Ty::ErrorUnion { .. }) { 4 }
